@@ -112,8 +112,16 @@ def run(ctx):
         for a, b, ta, tb in ((p1, p2, t1, t2), (p2, p1, t2, t1)):
             out, q = outcome(lambda: a.join(b))
             ops.append(({'op': 'join', 'left': ta, 'right': tb, 'family': 'operand of the other'}, out, dumps([S('join'), dump_pred(a), dump_pred(b)]), ('join', a, b, q)))
+    # the alias name is also bound by a quantifier of the input: bound occurrences are not references to the alias
+    shadowed = []
+    for txt in ('{@A.x > 0 and forall A in xs: @A > x}', '{forall A in xs: @A > 0}', '{(exists A in {1, 2}: @A = x) or @A.y < 3}',
+                '{forall i in xs: (@i > @A.x and exists A in ys: @A > @i)}', '{not (forall A in xs: @A > y) implies @A.b}'):
+        try:
+            shadowed.append((txt, prp.parse(txt)))
+        except Exception:
+            pass
     # substitutions
-    for txt, x in preds + exprs + vac:
+    for txt, x in preds + exprs + vac + shadowed:
         out, y = outcome(lambda: R.replace_this_with_var(x, 'Z'))
         ops.append(({'op': 'replace_this_with_var', 'input': txt, 'alias': 'Z'}, out, dumps([S('thisvar'), dump2(x), 'Z']), ('thisvar', x, y)))
         out2, y2 = outcome(lambda: R.replace_var_with_this(x, 'A'))
@@ -122,7 +130,7 @@ def run(ctx):
             out3, y3 = outcome(lambda: R.replace_var_with_this(y, 'Z'))
             ops.append(({'op': 'inverse', 'input': txt}, out3, dumps([S('varthis'), dump2(y), 'Z']), ('inverse', x, y3)))
     # event alias normalisation
-    for txt, p in preds:
+    for txt, p in preds + shadowed:
         out, ev = None, None
         try:
             ev = HplSimpleEvent.publish('t', p, alias='A')
@@ -176,7 +184,7 @@ def run(ctx):
                 _, x, y = spec
                 if y is None:
                     continue
-                if y.contains_reference('A'):
+                if 'A' in y.external_references():      # occurrences bound by a quantifier named A are not references to the alias
                     violations.append({'input': inp, 'impl': out, 'what': 'the result still references the variable', 'signature': 'varthis-leftover'})
                 for env in envs():
                     e2 = [env[0], env[1]] + [kv for kv in env[2:] if kv[0] != 'A'] + [['A', env[1]]]
@@ -189,7 +197,7 @@ def run(ctx):
                 _, p, ev = spec
                 if ev is None:
                     continue
-                if ev.predicate.contains_reference('A') or 'A' in ev.external_references():
+                if 'A' in ev.predicate.external_references() or 'A' in ev.external_references():
                     violations.append({'input': inp, 'impl': out, 'what': 'the stored predicate / external references still mention the own alias', 'signature': 'event-alias-leftover'})
                 for env in envs():
                     e2 = [env[0], env[1]] + [kv for kv in env[2:] if kv[0] != 'A'] + [['A', env[1]]]
